@@ -49,6 +49,17 @@ type Recorder struct {
 	// current value and its result discarded (as a store does when the conditional write fails), then
 	// Interpose runs (the competing writer), then the CAS proper takes place. One-shot.
 	Interpose func()
+	// Delay, if positive, is how long the store takes to serve a CAS of this writer (slept before the CAS
+	// proper); OnServe, if set, runs when the delay is over, immediately before the CAS proper.
+	Delay   time.Duration
+	OnServe func()
+}
+
+// SetDelay sets Delay and OnServe.
+func (r *Recorder) SetDelay(d time.Duration, onServe func()) {
+	r.mu.Lock()
+	r.Delay, r.OnServe = d, onServe
+	r.mu.Unlock()
 }
 
 // SetExplicit marks the writes performed until the next SetExplicit(false) as explicit.
@@ -58,7 +69,14 @@ func (r *Recorder) CAS(ctx context.Context, key string, f func(interface{}) (int
 	r.mu.Lock()
 	ip := r.Interpose
 	r.Interpose = nil
+	delay, onServe := r.Delay, r.OnServe
 	r.mu.Unlock()
+	if delay > 0 {
+		time.Sleep(delay)
+	}
+	if onServe != nil {
+		onServe()
+	}
 	if ip != nil {
 		cur, err := r.Client.Get(ctx, key)
 		if err == nil {
